@@ -12,8 +12,6 @@ package lockstep
 
 import (
 	"context"
-	"errors"
-	"strconv"
 	"time"
 
 	"github.com/fogfish/golem/pipe/v2"
@@ -39,7 +37,7 @@ func (e *env) logged(start time.Time, f func(int) int) func(int) (int, error) {
 		e.visits = append(e.visits, x, int(time.Since(start)/time.Millisecond))
 		e.mu.Unlock()
 		if e.fails(x) {
-			return 0, errors.New(strconv.Itoa(x))
+			return 0, e.failure(x) /* [errkinds] */
 		}
 		return f(x), nil
 	}
